@@ -42,7 +42,8 @@ PNext == PVisit \/ PSweepEnd \/ Terminate
 PSpec == PInit /\ [][PNext]_pvars /\ WF_pvars(PNext)
 
 Consistent == stage = "finished" =>
-                \A n \in Nodes : fin[n] = Meet(Prevs(n)) /\ fout[n] = F(n, fin[n])
+                \A n \in Nodes : /\ fin[n] = RootIn(RootsAreEntries, roots, n, Meet(Prevs(n)))
+                                 /\ fout[n] = F(n, fin[n])
 EdgesStopAtExits == stage = "finished" => \A n \in Exits : nexts[n] = {}
 RoundsBound == rounds <= N + 1        \* every further round cut at least one more node
 PTerminates == <>(stage = "finished")
